@@ -78,10 +78,13 @@ fn accepted(accept: Option<&str>) -> Vec<usize> {
     vec![0]
 }
 
+/// is the library built with its `cookie` feature? Without it the cookie options are documented to do nothing.
+const COOKIE_BUILD: bool = cfg!(feature = "cookie");
+
 /// set of admissible initial locales
 fn expected(e: &Env) -> Vec<usize> {
     let main_resolution = |cookie_enabled: bool, name: &str| -> Vec<usize> {
-        if cookie_enabled {
+        if cookie_enabled && COOKIE_BUILD {
             if let Some(v) = cookie_value(&e.cookie_header, name) {
                 match cookie_locales(&v) {
                     (Some(i), false) => return vec![i],
@@ -102,7 +105,7 @@ fn expected(e: &Env) -> Vec<usize> {
     // sub-context: cookie (own name, only if given), initial, parent, then the main resolution (no cookie)
     let mut out = vec![];
     let mut decided = false;
-    if let Some(name) = e.sub_cookie_name {
+    if let (Some(name), true) = (e.sub_cookie_name, COOKIE_BUILD) {
         if let Some(v) = cookie_value(&e.cookie_header, name) {
             match cookie_locales(&v) {
                 (Some(i), false) => return vec![i],
@@ -178,7 +181,7 @@ fn observe(e: &Env) -> (usize, Option<usize>) {
 }
 
 pub fn run(tier: Tier) -> i32 {
-    let rep = Reporter::new("C15", "RT", tier);
+    let rep = Reporter::new("C15", if COOKIE_BUILD { "RT" } else { "RT-nocookie" }, tier);
     let mut cookie_headers: Vec<Option<String>> = vec![None, Some(String::new())];
     for name in [DEFAULT_COOKIE, "custom"] {
         for v in ["en", "fr", "de", "xx", "", "%20fr%20", "FR", "fr-FR", "french"] {
@@ -239,7 +242,7 @@ pub fn run(tier: Tier) -> i32 {
     rep.sample(json!({"env": format!("{:?}", envs[envs.len() / 3])}));
     rep.sample(json!({"env": format!("{:?}", envs[envs.len() - 5])}));
     let mut cov = serde_json::Map::new();
-    cov.insert("rule".into(), json!(format!("{} cookie headers (absent, empty, each of 9 values under the default and a custom name alone and between other cookies, both names, unrelated) x {} Accept-Language values x {{main context: enable_cookie x cookie name}} + {{sub-context: parent none/each locale x initial none/each x cookie name none/default/custom}}; each environment builds real contexts (init_i18n_context_with_options, init_i18n_subcontext_with_options, resolve_locale_with_options) under ssr with injected header getters and effects run to quiescence; oracle: cookie (if enabled and holding a configured name) > Accept-Language best match > default; sub-context: cookie > initial > parent > same resolution; distinct_nontrivial = distinct (deciding rule, result) classes", cookie_headers.len(), accepts.len())));
+    cov.insert("rule".into(), json!(format!("{} cookie headers (absent, empty, each of 9 values under the default and a custom name alone and between other cookies, both names, unrelated) x {} Accept-Language values x {{main context: enable_cookie x cookie name}} + {{sub-context: parent none/each locale x initial none/each x cookie name none/default/custom}}; each environment builds real contexts (init_i18n_context_with_options, init_i18n_subcontext_with_options, resolve_locale_with_options) under ssr with injected header getters and effects run to quiescence; the harness is built twice, with and without the library's `cookie` feature (without it every cookie option must do nothing); oracle: cookie (if enabled and holding a configured name) > Accept-Language best match > default; sub-context: cookie > initial > parent > same resolution; distinct_nontrivial = distinct (deciding rule, result) classes", cookie_headers.len(), accepts.len())));
     cov.insert("exhaustive".into(), json!(true));
     cov.insert("outcome_classes".into(), json!(*classes.lock().unwrap()));
     rep.finish(cov, &["client branch (navigator.languages, <html lang>) needs a browser: not executed", "Accept-Language is split by leptos-use on ',' without trimming: entries are fed without spaces", "a cookie value with surrounding whitespace may be honoured or ignored (from_str trims)"])
